@@ -146,6 +146,7 @@ def parseTy (s : String) : Option Ty :=
   match s.toList with
   | ['b'] => some .bool
   | ['i'] => some .int
+  | ['s'] => some .str
   | 'n' :: ds => (String.ofList ds).toNat?.map Ty.named
   | _ => none
 
